@@ -16,9 +16,12 @@ class Summ:
     def __init__(self):
         self.use_first = {}     # table -> witness text
         self.must_clear = set()
+        self.ends_used = set()        # tables that may be used (filled) after their last clear when the function returns
+        self.leaves_foreign = set()   # tables that may still hold the entries of a nested walk (an included file) when the function returns
+        self.foreign_use = {}         # table -> witness: used while it may hold entries of a nested walk
 
     def key(self):
-        return (tuple(sorted(self.use_first)), tuple(sorted(self.must_clear)))
+        return (tuple(sorted(self.use_first)), tuple(sorted(self.must_clear)), tuple(sorted(self.ends_used)), tuple(sorted(self.leaves_foreign)), tuple(sorted(self.foreign_use)))
 
 
 class TS:
@@ -73,6 +76,9 @@ class TS:
         def local_shadow(name):
             return name in shadow
 
+        used = set()
+        foreign = set()
+
         def visit_expr(e, cleared):
             nodes = [n for n in ast.walk(e) if isinstance(n, (ast.Name, ast.Call, ast.Attribute))]
             nodes.sort(key=lambda n: (n.end_lineno, n.end_col_offset, -(n.lineno * 10000 + n.col_offset)))
@@ -87,11 +93,17 @@ class TS:
                 if id(n) in skip:
                     if isinstance(n, ast.Attribute):
                         cleared.add(self.table_of(mod, n.value))
+                        used.discard(self.table_of(mod, n.value))
+                        foreign.discard(self.table_of(mod, n.value))
                     continue
                 if isinstance(n, (ast.Name, ast.Attribute)):
                     if isinstance(n, ast.Name) and local_shadow(n.id):
                         continue
                     t = self.table_of(mod, n)
+                    if t:
+                        used.add(t)
+                        if t in foreign:
+                            out.foreign_use.setdefault(t, "%s (line %d in %s)" % (" ".join(u(stmt_of.get(id(n), n)).split())[:90], n.lineno, f.qual))
                     if t and t not in cleared:
                         out.use_first.setdefault(t, "%s (line %d in %s)" % (" ".join(u(stmt_of.get(id(n), n)).split())[:90], n.lineno, f.qual))
                 elif isinstance(n, ast.Call):
@@ -101,12 +113,28 @@ class TS:
                             if t not in cleared:
                                 out.use_first.setdefault(t, "nested tree walk at line %d in %s -> %s" % (n.lineno, f.qual, why))
                         cleared |= self.walk.must_clear
+                        for t in self.tables:
+                            if t in self.walk.ends_used:
+                                foreign.add(t)
+                                used.add(t)
+                            elif t in self.walk.must_clear:
+                                used.discard(t)
+                                foreign.discard(t)
                     elif callee:
                         s = self.summ[callee]
                         for t, why in s.use_first.items():
                             if t not in cleared:
                                 out.use_first.setdefault(t, "call at line %d in %s -> %s" % (n.lineno, f.qual, why))
                         cleared |= s.must_clear
+                        for t in self.tables:
+                            if t in foreign and t in s.use_first:
+                                out.foreign_use.setdefault(t, "call at line %d in %s -> %s" % (n.lineno, f.qual, s.use_first[t]))
+                            if t in s.ends_used:
+                                used.add(t)
+                            elif t in s.must_clear:
+                                used.discard(t)
+                                foreign.discard(t)
+                            foreign.update(s.leaves_foreign)
 
         stmt_of = {}
 
@@ -199,6 +227,8 @@ class TS:
         if block(f.node.body, cl):
             exits.append(cl)
         out.must_clear = set.intersection(*exits) if exits else set(self.tables)
+        out.ends_used = set(used)          # may-information: path-insensitive union (a clear on one branch does not remove it)
+        out.leaves_foreign = set(foreign)
         return out
 
     def _declared_global(self, f, name):
@@ -247,11 +277,29 @@ class TS:
         res = Summ()
         checks = []
 
+        wused = set()
+        wforeign = set()
+        self.foreign_checks = getattr(self, "foreign_checks", [])
+        fchecks = []
+
         def apply(h, dirty, path):
             f = self.handlers.get(h)
             if f is None:
                 return dirty
             s = self.summ[f.qual]
+            for t in sorted(self.tables):
+                if t in wforeign and t in s.use_first:
+                    fchecks.append((h, t, tuple(path), False, s.use_first[t]))
+                elif t in s.foreign_use:
+                    fchecks.append((h, t, tuple(path), False, s.foreign_use[t]))
+                if t in s.ends_used:
+                    wused.add(t)
+                elif t in s.must_clear:
+                    wused.discard(t)
+                if t in s.must_clear and t not in s.leaves_foreign:
+                    wforeign.discard(t)
+                if t in s.leaves_foreign:
+                    wforeign.add(t)
             out = set(dirty)
             for t in sorted(self.tables):
                 if t in dirty:
@@ -308,4 +356,6 @@ class TS:
 
         final = walk_rule(G.prules[0].name, frozenset(dirty0), [], frozenset())
         res.must_clear = set(self.tables) - set(final)
+        res.ends_used = set(wused)
+        self.foreign_checks = fchecks
         return res, checks
